@@ -5,7 +5,8 @@
 # `pollerdies <harness binary>`: a stand-in chronyd answers with the PHC as reference, the daemon is given the PHC
 # options, and the PHC's error-bound attribute reads "N/A": the POLLER thread panics at its first poll while the
 # writer thread is healthy and waiting for messages. The process must exit.
-#   usage: c15_release.sh <clockbound binary> <nochrony|silent|pollerdies> [harness binary]  -> "exited <rc> <ms>" | "never <ms>"
+# `rofs` / `noperm`: the writer thread cannot create its segment because /run (resp. /run/clockbound) is read-only. The process must exit.
+#   usage: c15_release.sh <clockbound binary> <nochrony|silent|pollerdies|rofs|noperm> [harness binary]  -> "exited <rc> <ms>" | "never <ms>"
 exec unshare -m sh -c '
 mount -t tmpfs tmpfs /run || exit 99
 sp=""
@@ -19,6 +20,10 @@ if [ "$2" = pollerdies ]; then
   sp=$!
   sleep 0.4
   extra="--phc-ref-id PHC0 --phc-interface ../../../run/fakeif"
+elif [ "$2" = rofs ] || [ "$2" = noperm ]; then
+  # the runtime directory cannot be created: /run is read-only (rofs) or /run/clockbound exists but is not ours to write (noperm is
+  # exercised as a read-only bind mount of an empty directory: root ignores permission bits)
+  if [ "$2" = noperm ]; then mkdir -p /run/clockbound /run/empty; mount --bind /run/empty /run/clockbound; mount -o remount,ro,bind /run/clockbound; else mount -o remount,ro /run; fi
 else
   : > /run/clockbound
 fi
@@ -29,7 +34,7 @@ if [ "$2" = silent ]; then
   sleep 0.4
 fi
 start=$(date +%s%N)
-timeout 14 "$1" $extra >/run/cb.log 2>&1 </dev/null; rc=$?
+timeout 14 "$1" $extra >/dev/null 2>&1 </dev/null; rc=$?
 end=$(date +%s%N)
 [ -n "$sp" ] && kill $sp 2>/dev/null
 ms=$(( (end - start) / 1000000 ))
